@@ -85,6 +85,31 @@ def findCore (vs : List V3) (s : Sketch) (pts : List V3) : List Nat :=
 def findShell (vs : List V3) (s : Sketch) (pts : List V3) : List Nat :=
   findFromPoints vs (pickPts pts s.shellOuterPts)
 
+/-! ### a finder that outlives changes of the mesh (history)
+
+A finder object holds the mesh, not a copy (or an alias) of its vertex list: every query reads `mesh.vertices` anew.
+The history model makes the vertex list of the mesh explicit: vertices are moved in place, a re-assembly
+(`Mesh.backport()`, `Mesh.clear()` + `assemble()`, with or without deleted blocks) replaces the whole list. -/
+
+inductive MeshEvent where
+  | move (k : Nat) (p : V3)            -- `mesh.vertices[k].move_to(p)`
+  | reassemble (vs : List V3)          -- the vertices of the new assembly
+  deriving Repr
+
+def MeshEvent.apply (vs : List V3) : MeshEvent → List V3
+  | .move k p => vs.set k p
+  | .reassemble vs' => vs'
+
+/-- the vertex list of the mesh after a history of events -/
+def meshAfter (vs : List V3) (es : List MeshEvent) : List V3 := es.foldl MeshEvent.apply vs
+
+/-- `finder.find_in_sphere(c, r)` asked after the history `es` (finder created before it) -/
+def findInSphereAfter (vs : List V3) (es : List MeshEvent) (c : V3) (r : Option Rat) : List Nat :=
+  findInSphere (meshAfter vs es) c r
+
+def findOnPlaneAfter (vs : List V3) (es : List MeshEvent) (o n : V3) : List Nat :=
+  findOnPlane (meshAfter vs es) o n
+
 /-! ### what "core" and "outer rim" mean, independently of the quad tables -/
 
 def Sketch.nPts (s : Sketch) : Nat := s.r2.length
